@@ -165,6 +165,8 @@ Record SnapSpec (c : cache) (s : snapshot) : Prop := mkSnapSpec {
        ((forall i t, n_tasks N !! i = Some t -> t_status t <> Binding) -> sc (clone_alloc c n N) <> None ->
         NodeRep (c_heap c) n N' /\ n_has_node N' = true /\ n_alloc N' = clone_alloc c n N);
   ss_heap : forall i t, s_heap s !! i = Some t -> c_heap c !! i = Some t;
+  (* ... and every task of a snapshot job is there, with exactly the record the cache holds *)
+  ss_heap_full : forall i j sj, s_jobs s !! j = Some sj -> i ∈ j_tasks (cj_job sj) -> s_heap s !! i = c_heap c !! i;
 }.
 
 (* Theorem (snapshot internally consistent): in a cache satisfying the invariant the model of
@@ -196,6 +198,15 @@ Proof.
     apply (node_set_rep (c_heap c) n N (mkNodeObj (n_id N) (clone_alloc c n N)) HR Hsc).
     intros i t Ht. exact (proj2 (rp_wf c R i t Ht)).
   - intros i t Hs. simpl in Hs. apply map_filter_lookup_Some in Hs. exact (proj1 Hs).
+  - intros i j sj Hs Hin. rewrite Hj in Hs. destruct (c_jobs c !! j) as [cj|] eqn:Hcj; [|discriminate].
+    destruct (in_snapshot c cj) eqn:Hsnap; [|discriminate]. injection Hs as <-. simpl in Hin.
+    (* the clone has the members of the cache's entry *)
+    assert (Hin' : i ∈ j_tasks (cj_job cj)).
+    { apply (jr_tasks _ _ _ (rp_jobs c R j cj Hcj)). apply (jr_tasks _ _ _ (clone_job_rep c j cj R Hcj)). exact Hin. }
+    simpl. destruct (c_heap c !! i) as [t|] eqn:Ht.
+    + apply map_filter_lookup_Some. split; [exact Ht|]. cbn [fst]. apply bool_decide_pack.
+      exists j, cj. split; [|exact Hin']. apply map_filter_lookup_Some. auto.
+    + apply map_filter_lookup_None. left. exact Ht.
 Qed.
 
 (* ---------- repair under arbitrary mixes of successful and failed binds / evictions ---------- *)
@@ -742,6 +753,53 @@ Proof.
   intros _. exists st, n, ni'. split; [reflexivity|]. split; [exact Hnode|]. cbv zeta. rewrite Hidn.
   destruct ok; cbn [fst]; simpl; rewrite !lookup_insert, Hts, lookup_insert; repeat split; auto.
   apply elem_of_enq. auto.
+Qed.
+
+
+(* ---------- a history-only sufficient condition for "nothing awaiting" ---------- *)
+
+(* read off the history alone: a successful bind / eviction is acknowledged by a later pod
+   notification that carries a node name (one without is the update UpdatePod may ignore) or
+   by the pod's delete *)
+Definition pend_syn (A : gset positive) (e : event) : gset positive :=
+  match e with
+  | EBind _ tid _ true | EEvict _ tid true => {[tid]} ∪ A
+  | EPod p => if bool_decide (p_node p = None) then A else A ∖ {[p_id p]}
+  | EPodDel i => A ∖ {[i]}
+  | _ => A
+  end.
+
+Lemma await_sub c (A B : gset positive) e :
+  Inv2 eps c -> step_ok2 e -> A ⊆ B -> await c A e ⊆ pend_syn B e.
+Proof.
+  intros I Hok HAB. destruct e; try (simpl; set_solver).
+  - simpl in Hok. destruct (pod_event_full eps c p I Hok) as (_ & _ & Hid).
+    unfold await, pend_syn. destruct (decide (p_node p = None)) as [Hn|Hn].
+    + rewrite (bool_decide_eq_true_2 (p_node p = None)) by exact Hn. case_bool_decide; set_solver.
+    + rewrite (bool_decide_eq_false_2 (p_node p = None)) by exact Hn.
+      destruct Hid as [Hnew|(_ & t0 & _ & _ & Hnn)]; [|contradiction].
+      rewrite bool_decide_eq_true_2 by exact Hnew. set_solver.
+  - simpl. destruct ok; set_solver.
+  - simpl. destruct ok; set_solver.
+Qed.
+
+Lemma await_run_sub h : forall c (A B : gset positive),
+  Inv2 eps c -> hist_ok4 c h -> A ⊆ B -> await_run c A h ⊆ fold_left pend_syn h B.
+Proof.
+  induction h as [|e r IH]; intros c A B I Hok HAB; [exact HAB|].
+  destruct Hok as [H1 H2]. simpl. apply IH; [|exact H2|].
+  - exact (proj1 (step_inv2 eps c e I (step_ok4_2 c e H1))).
+  - apply await_sub; auto. exact (step_ok4_2 c e H1).
+Qed.
+
+(* Theorem: the "nothing awaiting" half of [quiescent] follows from a condition on the history
+   alone; the other half, [c_gone = ∅], is a condition on the final state of the environment
+   (no pod deleted on the API server whose delete notification is still in flight) *)
+Theorem acked_nothing_awaiting h :
+  hist_ok4 empty_cache h -> fold_left pend_syn h ∅ = ∅ -> await_run empty_cache ∅ h = ∅.
+Proof.
+  intros Hok Hs. pose proof (await_run_sub h empty_cache ∅ ∅ (inv2_empty eps) Hok ltac:(set_solver)) as H.
+  rewrite Hs in H. set_solver.
 Qed.
 
 End Mixed.
